@@ -75,9 +75,20 @@ class det_random:
             self.cm.os = _OsProxy(self.saved["os"], _Stream(("os", self.sd)))
         if "random" in self.saved:
             self.cm.random = random.Random(repr(("random", self.sd)))
+        # also the global entry points, so that a module that reaches them through `import os as _os`, `random.randint`
+        # imported by name, etc. is still replayed (only `from os import urandom` at import time would escape)
+        import os as _os
+        self._g_urandom = _os.urandom
+        self._g_state = random.getstate()
+        gstream = _Stream(("os-global", self.sd))
+        _os.urandom = gstream.urandom
+        random.seed(repr(("random-global", self.sd)))
         return self
 
     def __exit__(self, *a):
+        import os as _os
+        _os.urandom = self._g_urandom
+        random.setstate(self._g_state)
         for n, v in self.saved.items():
             setattr(self.cm, n, v)
         return False
